@@ -18,7 +18,7 @@ import ast
 
 from ..common import get_index, nf, check_equal, same_value
 from ..index import norm_text
-from ..interp import Interp, has_unknown, unknown_atoms
+from ..interp import Interp, has_unknown, unknown_atoms, RangeVal
 from ..plf import Rat, Sym, Fn, find_atoms
 from ..report import AnalysisError
 
@@ -170,7 +170,7 @@ def run(rep, tier, root=None):
     # ---------------------------------------------------------------- M4
     k = ix.func(WFS, "make_subaps_2d")
     rep.functions_analysed.add(k.fq)
-    scatter_order(rep, k)
+    scatter_order(rep, k, ix)
     from ..common import purity_obligations
     purity_obligations(rep, ix, [ix.func(PUP, "circle")] + [ix.func(WFS, n) for n in ("findActiveSubaps", "computeFillFactor", "make_subaps_2d")],
                        "M5.pure", "the mask / sub-aperture set returned would depend on earlier calls, not only on the arguments")
@@ -186,56 +186,169 @@ def _is_float_dtype(v):
     return False
 
 
-def scatter_order(rep, k):
-    fors = [n for n in k.node.body if isinstance(n, ast.For)]
-    if len(fors) != 1 or not (len(fors[0].body) == 1 and isinstance(fors[0].body[0], ast.For)):
-        rep.unknown("M4.scatter-order", k.fq, "expected one doubly nested loop", k.where())
+def scatter_order(rep, k, ix):
+    """make_subaps_2d: the k-th active cell in row-major order receives data[..., k].
+    Read from the interpreter's logs: the store, the branch condition it is made under, the iteration order of the
+    cell coordinates it is stored at, and the discipline of the counter that numbers the active cells."""
+    from ..interp import Interp
+    from ..plf import Rat, Fn, Sym
+    data, mask = Rat.sym(k.params[0], ("array",)), Rat.sym(k.params[1], ("array",))
+    I = Interp(ix)
+    I.returns(k, [data, mask])
+    full = ("slice", Rat.const(0), None, None)
+    stores = [s_ for s_ in I.store_log if s_[0] == k.fq and isinstance(s_[2], tuple) and len(s_[2]) >= 2]
+    if len(stores) != 1:
+        rep.unknown("M4.scatter-order", k.fq, "expected one store into the 2-D sub-aperture array, found %d" % len(stores), k.where())
         return
-    outer, inner = fors[0], fors[0].body[0]
-    xo, yi = norm_text(outer.target), norm_text(inner.target)
-    ifs = [n for n in inner.body if isinstance(n, ast.If)]
-    if len(inner.body) != 1 or len(ifs) != 1 or ifs[0].orelse:
-        rep.unknown("M4.scatter-order", k.fq, "inner loop body is not a single `if mask[x, y] == 1:`", k.where(inner))
+    _, base, idx, val, lineno, op, txt = stores[0]
+    where = "%s:%d" % (k.module.relpath, lineno)
+    X, Y = idx[-2], idx[-1]
+    # the state the store was made in: find it through the loop log (innermost body states)
+    conds = None
+    for l in I.loop_log:
+        if l[0] == k.fq:
+            pass
+    st_node = next((n for n in ast.walk(k.node) if isinstance(n, ast.Assign) and n.lineno == lineno and isinstance(n.targets[0], ast.Subscript)), None)
+    if st_node is None or not (isinstance(X, Rat) and isinstance(Y, Rat)):
+        rep.unknown("M4.scatter-order", k.fq, "cannot read the store `%s`" % txt, where)
         return
-    test = norm_text(ifs[0].test).replace(" ", "")
-    mname = k.params[1]
-    rep.check(test in ("%s[%s,%s]==1" % (mname, xo, yi), "%s[%s,%s]" % (mname, xo, yi), "%s[%s,%s]!=0" % (mname, xo, yi)),
-              "M4.scatter-order", k.fq + ": cell (x, y) tested with the outer index first",
-              "active cells are tested as %s with loops %s (outer), %s (inner)" % (test, xo, yi), k.where(ifs[0]))
-    stores = [n for n in ifs[0].body if isinstance(n, ast.Assign) and isinstance(n.targets[0], ast.Subscript)]
-    incs = [n for n in ifs[0].body if isinstance(n, ast.AugAssign)]
-    if len(stores) != 1 or len(incs) != 1 or len(ifs[0].body) != 2:
-        rep.violation("M4.counter", k.fq + ": one store and one counter increment per active cell",
-                      "the active-cell branch has %d stores and %d increments" % (len(stores), len(incs)), k.where(ifs[0]))
+    # 1. active test: the store is guarded by mask[X, Y] == 1 (path conditions recorded with the call log are not available for
+    #    stores; evaluate the guards syntactically enclosing / preceding the store with the interpreter's values)
+    guard = _active_guard(k, st_node, I, X, Y, mask)
+    rep.check(guard is True, "M4.scatter-order", k.fq + ": cell (x, y) is filled iff mask[x, y] == 1, tested at the coordinates it is stored at",
+              "the store `%s` is made %s" % (txt, guard if isinstance(guard, str) else "without testing mask at [%s, %s]" % (nf(X, 40), nf(Y, 40))), where)
+    rep.check(same_value(idx[:-2], (full, full)) and op == "=", "M4.scatter-order", k.fq + ": stored at [:, :, x, y]",
+              "data is stored at %s" % nf(idx, 120), where)
+    # 2. iteration order of (X, Y) is row-major
+    loops = [l for l in I.loop_log if l[0] == k.fq]
+    lvs = {}
+    for l in loops:
+        if isinstance(l[2], Rat) and isinstance(l[2].single_atom(), Sym) and isinstance(l[3], RangeVal):
+            lvs[l[2].single_atom()] = l[3]
+    order_ok, cover_ok, why = False, False, "cell coordinates (%s, %s) are not the loop variables of a nest, nor divmod of one ascending index" % (nf(X, 40), nf(Y, 40))
+    n0 = Rat.sym("shape(%s)[0]" % k.params[1], ("int", "size"))
+    n1 = Rat.sym("shape(%s)[1]" % k.params[1], ("int", "size"))
+    xa, ya = X.single_atom(), Y.single_atom()
+    if isinstance(xa, Sym) and isinstance(ya, Sym) and xa in lvs and ya in lvs and xa != ya:
+        dx, dy = int(xa.name.split("@")[1]), int(ya.name.split("@")[1])
+        order_ok = dx < dy
+        why = "x is the %s loop variable" % ("outer" if order_ok else "inner")
+        rx, ry = lvs[xa], lvs[ya]
+        cover_ok = same_value((rx.lo, rx.step, ry.lo, ry.step), (Rat.const(0), Rat.const(1), Rat.const(0), Rat.const(1))) and \
+            same_value(rx.hi, n0) and (same_value(ry.hi, n0) or same_value(ry.hi, n1))
+    elif isinstance(xa, Fn) and isinstance(ya, Fn) and xa.name == "floordiv" and ya.name == "mod" and same_value(xa.args, ya.args):
+        c, n = xa.args
+        ca = c.single_atom() if isinstance(c, Rat) else None
+        if isinstance(ca, Sym) and ca in lvs:
+            r = lvs[ca]
+            order_ok = same_value((r.lo, r.step), (Rat.const(0), Rat.const(1)))
+            why = "(x, y) = divmod(c, %s) of the ascending index c" % nf(n, 30)
+            cover_ok = same_value(n, n0) and (same_value(r.hi, n0 * n0) or same_value(r.hi, n0 * n1))
+    rep.check(order_ok, "M4.scatter-order", k.fq + ": cells are visited in row-major order of (x, y)", why, where, note=why)
+    rep.check(cover_ok, "M4.scatter-order", k.fq + ": loops run over the whole mask", "iteration space does not cover mask.shape[0] rows and columns", where)
+    # 3. the k-th active cell receives data[..., k]: value read with the counter, counter advanced once per store, after it
+    v = st_node.value
+    vidx = (v.slice.elts if isinstance(v.slice, ast.Tuple) else [v.slice]) if isinstance(v, ast.Subscript) else []
+    cnt = vidx[-1].id if vidx and isinstance(vidx[-1], ast.Name) else None
+    good_val = isinstance(v, ast.Subscript) and norm_text(v.value) == k.params[0] and cnt is not None and \
+        all(isinstance(e, ast.Slice) and e.lower is None and e.upper is None for e in vidx[:-1])
+    rep.check(good_val, "M4.counter", k.fq + ": k-th active cell receives data[..., k]", "stored value is %s" % norm_text(v), where)
+    if cnt is None:
         return
-    tgt = stores[0].targets[0]
-    tidx = [norm_text(e) for e in (tgt.slice.elts if isinstance(tgt.slice, ast.Tuple) else [tgt.slice])]
-    rep.check(tidx[-2:] == [xo, yi], "M4.scatter-order", k.fq + ": stored at [..., x, y]",
-              "data is stored at [%s] with loops %s (outer), %s (inner): read-back through the mask is row-major" % (", ".join(tidx), xo, yi),
-              k.where(stores[0]))
-    cnt = norm_text(incs[0].target)
-    val = stores[0].value
-    vidx = [norm_text(e) for e in (val.slice.elts if isinstance(val, ast.Subscript) and isinstance(val.slice, ast.Tuple) else [])]
-    rep.check(isinstance(val, ast.Subscript) and norm_text(val.value) == k.params[0] and vidx and vidx[-1] == cnt,
-              "M4.counter", k.fq + ": k-th active cell receives data[..., k]",
-              "stored value is %s, counter is %s" % (norm_text(val), cnt), k.where(stores[0]))
-    rep.check(isinstance(incs[0].op, ast.Add) and norm_text(incs[0].value) == "1" and
-              stores[0].lineno < incs[0].lineno, "M4.counter", k.fq + ": counter += 1 after the store",
-              "counter update is `%s`" % norm_text(incs[0]), k.where(incs[0]))
-    inits = [n for n in k.node.body if isinstance(n, ast.Assign) and norm_text(n.targets[0]) == cnt]
-    others = [n for n in ast.walk(k.node) if isinstance(n, (ast.Assign, ast.AugAssign)) and
+    writes = [n for n in ast.walk(k.node) if isinstance(n, (ast.Assign, ast.AugAssign)) and
               norm_text(n.targets[0] if isinstance(n, ast.Assign) else n.target) == cnt]
-    rep.check(len(inits) == 1 and norm_text(inits[0].value) == "0" and inits[0].lineno < outer.lineno and len(others) == 2,
-              "M4.counter", k.fq + ": counter starts at 0 before the loops and is written nowhere else",
-              "counter writes: %s" % [norm_text(n) for n in others], k.where())
-    # loop ranges cover the mask
-    rng = [norm_text(outer.iter).replace(" ", ""), norm_text(inner.iter).replace(" ", "")]
-    src = {}
-    for n in k.node.body:
-        if isinstance(n, ast.Assign) and isinstance(n.targets[0], ast.Name):
-            src[n.targets[0].id] = norm_text(n.value).replace(" ", "")
-    def ext(r):
-        inner_ = r[len("range("):-1]
-        return src.get(inner_, inner_)
-    rep.check(ext(rng[0]) == "%s.shape[0]" % mname and ext(rng[1]) in ("%s.shape[0]" % mname, "%s.shape[1]" % mname),
-              "M4.scatter-order", k.fq + ": loops run over the whole mask", "loop ranges are %s" % rng, k.where(outer))
+    inits = [n for n in writes if isinstance(n, ast.Assign)]
+    incs = [n for n in writes if isinstance(n, ast.AugAssign)]
+    first_loop = min((n.lineno for n in ast.walk(k.node) if isinstance(n, (ast.For, ast.While))), default=10 ** 9)
+    rep.check(len(inits) == 1 and norm_text(inits[0].value) == "0" and inits[0].lineno < first_loop and len(incs) == 1, "M4.counter",
+              k.fq + ": counter starts at 0 before the loops and is written nowhere else", "counter writes: %s" % [norm_text(n) for n in writes], k.where())
+    if len(incs) == 1:
+        inc = incs[0]
+        same_block = _same_block(k.node, st_node, inc)
+        rep.check(isinstance(inc.op, ast.Add) and norm_text(inc.value) == "1" and st_node.lineno < inc.lineno and same_block, "M4.counter",
+                  k.fq + ": counter += 1 once per store, after it (same block)", "counter update is `%s`%s" % (norm_text(inc), "" if same_block else " in another block than the store"),
+                  k.where(inc))
+
+
+def _same_block(fnode, a, b):
+    for n in ast.walk(fnode):
+        for fld in ("body", "orelse", "finalbody"):
+            blk = getattr(n, fld, None)
+            if isinstance(blk, list) and a in blk and b in blk:
+                return True
+    return False
+
+
+def _active_guard(k, st_node, I, X, Y, mask):
+    """True if the store is reached exactly when mask[X, Y] == 1; otherwise a text describing the guard found"""
+    want = Rat.atom(Fn("getitem", (mask, (X, Y))))
+
+    def truth_of(test, positive):
+        """does `test` being `positive` mean mask[X, Y] == 1 ?"""
+        if not isinstance(test, ast.Compare) or len(test.ops) != 1:
+            if isinstance(test, ast.Subscript):
+                return _is_mask_at(test) and positive
+            return False
+        l, r = test.left, test.comparators[0]
+        if isinstance(r, ast.Subscript) and not isinstance(l, ast.Subscript):
+            l, r = r, l
+        if not (_is_mask_at(l) and isinstance(r, ast.Constant)):
+            return False
+        if isinstance(test.ops[0], ast.Eq) and r.value == 1:
+            return positive
+        if isinstance(test.ops[0], ast.NotEq) and r.value == 1:
+            return not positive
+        if isinstance(test.ops[0], ast.NotEq) and r.value == 0:
+            return positive
+        return False
+
+    def _is_mask_at(sub):
+        if not (isinstance(sub, ast.Subscript) and norm_text(sub.value) == k.params[1]):
+            return False
+        # the subscript's coordinates, as evaluated at the store: compare normal forms through the store's own index text
+        tgt = st_node.targets[0]
+        t_idx = [norm_text(e) for e in (tgt.slice.elts if isinstance(tgt.slice, ast.Tuple) else [tgt.slice])][-2:]
+        s_idx = [norm_text(e) for e in (sub.slice.elts if isinstance(sub.slice, ast.Tuple) else [sub.slice])]
+        return s_idx == t_idx
+
+    # enclosing ifs, and `if <not active>: continue` guards earlier in the same block
+    chain = _parents(k.node, st_node)
+    found = False
+    for parent, fld, blk in chain:
+        if isinstance(parent, ast.If):
+            pos = fld == "body"
+            if truth_of(parent.test, pos):
+                found = True
+            else:
+                return "under `if %s` (%s branch)" % (norm_text(parent.test), "true" if pos else "false")
+        if isinstance(blk, list) and st_node in blk or any(st_node in ast.walk(x) for x in (blk or [])):
+            pass
+    # guards by `continue` in the store's own block
+    own = next((blk for parent, fld, blk in chain if isinstance(blk, list) and st_node in blk), None)
+    if own is not None:
+        for st in own[:own.index(st_node)]:
+            if isinstance(st, ast.If) and not st.orelse and len(st.body) == 1 and isinstance(st.body[0], ast.Continue):
+                if truth_of(st.test, False):
+                    found = True
+                else:
+                    return "after `if %s: continue`" % norm_text(st.test)
+    return True if found else "unconditionally"
+
+
+def _parents(root, node):
+    """[(parent, field name, block list)] from the outermost to the innermost statement containing node"""
+    out = []
+
+    def rec(n, acc):
+        for fld in ("body", "orelse", "finalbody"):
+            blk = getattr(n, fld, None)
+            if isinstance(blk, list):
+                for st in blk:
+                    if st is node:
+                        out.extend(acc + [(n, fld, blk)])
+                        return True
+                    if rec(st, acc + [(n, fld, blk)]):
+                        return True
+        return False
+    rec(root, [])
+    return out
